@@ -235,6 +235,37 @@ def freshDisk (freshId : Str) : Disk :=
   { header := { fmt := some fileFormat, version := some libVersion, id := some freshId },
     hasData := false, hasMeta := false, hasCreated := false, hasUpdated := false, content := [] }
 
+/-- Python truth value of an attribute read with `get_attr`: absent (`None`) and `""` are false -/
+def truthyStr : Option Str → Bool
+  | none => false
+  | some s => !s.isEmpty
+
+/-- one `_set_<x>()` of `_create_header`: when it keeps an existing (truthy) value it returns, else
+it writes the constant.  The truth value of a numpy version vector that does not have exactly one
+component is a ValueError (numpy ≥ 2.2 also for the empty one). -/
+def headerStep (fid : Str) (h : Header) : HeaderAttr × Bool → Except Err Header
+  | (.format, keep) =>
+    if keep && truthyStr h.fmt then .ok h else .ok { h with fmt := some fileFormat }
+  | (.id, keep) =>
+    if keep && truthyStr h.id then .ok h else .ok { h with id := some fid }
+  | (.version, keep) =>
+    if keep then
+      match h.version with
+      | none => .ok { h with version := some libVersion }
+      | some [x] => if x ≠ 0 then .ok h else .ok { h with version := some libVersion }
+      | some _ => .error .valueError
+    else .ok { h with version := some libVersion }
+
+/-- `File._create_header()` over the generated call order -/
+def createHeaderFrom (fid : Str) : Header → List (HeaderAttr × Bool) → Except Err Header
+  | h, [] => .ok h
+  | h, st :: sts =>
+    match headerStep fid h st with
+    | .error e => .error e
+    | .ok h' => createHeaderFrom fid h' sts
+
+def createHeader (h : Header) (fid : Str) : Except Err Header := createHeaderFrom fid h createHeaderSteps
+
 /-- tail of `File.__init__` after `_check_header`: `open_group("data", create=True)`,
 `open_group("metadata", create=True)`, `force_created_at()` / `force_updated_at()` when the
 attribute is absent.  Each is a write, refused through a read-only handle. -/
